@@ -14,6 +14,8 @@ import CxVerif.Extracted.KernelsSha256
 import CxVerif.Proofs.KernelTieWords
 import CxVerif.Proofs.KeccakTactic
 namespace Cx.Props.C01.KernelTieSha256
+-- a small heartbeat budget makes a FAILING check (elaborator `rfl` or kernel) stop after seconds; a passing one needs < 1000
+set_option maxHeartbeats 20000
 open Cx Cx.Impl Cx.Impl.Sha2 Cx.Spec.Sha2 Cx.Extracted.KernelsSha256 Cx.Proofs.Keccak Cx.Proofs.KernelTieWords
 
 theorem e0_src_eq_model (x : UInt32) : e0_src x = Impl256.e0 x := rfl
@@ -21,8 +23,6 @@ theorem e1_src_eq_model (x : UInt32) : e1_src x = Impl256.e1 x := rfl
 theorem s0_src_eq_model (x : UInt32) : s0_src x = Impl256.s0 x := rfl
 theorem s1_src_eq_model (x : UInt32) : s1_src x = Impl256.s1 x := rfl
 
--- (a small heartbeat budget makes a FAILING kernel check stop after seconds; a passing one needs < 1000)
-set_option maxHeartbeats 20000 in
 /-- **schedule = shared core**: the loop `for i in 16..64 { w[i] = s1(w[i-2]) + w[i-7] + s0(w[i-15]) + w[i-16] }` of the
     source, on the sixteen loaded words, is `Spec.Sha2.schedule256` (the definition both Spec and Impl use) -/
 theorem schedule_src_eq_shared_core (m0 m1 m2 m3 m4 m5 m6 m7 m8 m9 m10 m11 m12 m13 m14 m15 : UInt32) :
@@ -30,7 +30,6 @@ theorem schedule_src_eq_shared_core (m0 m1 m2 m3 m4 m5 m6 m7 m8 m9 m10 m11 m12 m
       = schedule256 [m0, m1, m2, m3, m4, m5, m6, m7, m8, m9, m10, m11, m12, m13, m14, m15] := by
   kernel_rfl
 
-set_option maxHeartbeats 20000 in
 /-- `digest_block_u32` as written in the source (schedule, 64 `round!` steps, feed-forward) on the words of the block
     = the model's `rounds_loop` over `K32.zip (schedule256 …)` plus feed-forward, for every state and block words -/
 theorem digest_block_u32_src_eq_model_words (state : W8 UInt32)
